@@ -384,7 +384,37 @@ def r7_delayed_send(ctx):
     ctx.check(any(x == ('arg', 2 + 1, 'send_time') or (x[0] == 'arg' and x[2] == 'send_time') for x in walk(tm)), 'delayed-at-send-time', 'the delayed event is scheduled at send_time', pushes[0].where())
 
 
+BOUNDING = ('take', 'take_while', 'step_by', 'skip', 'skip_while', 'filter', 'map_while', 'nth', 'scan')
+
+
+def r8_whole_chain(ctx):
+    """a gate's path enumerates the whole chain, whatever its length: the iterator handed out by Gate::path_iter is the hop-by-hop walker
+    itself, with no bounding adaptor, and the walker's next() ends only where next_hop() ends"""
+    ctx.set_rule('C08.R8')
+    P = ctx.P
+    f = ctx.anchor('des::net::gate::Gate::path_iter')
+    if not f:
+        return
+    ctx.touch(f)
+    rty = f.local_ty(0)
+    bounded_ty = [a for a in ('Take<', 'TakeWhile<', 'StepBy<', 'Skip<', 'SkipWhile<', 'Filter<', 'MapWhile<', 'Scan<') if a in rty]
+    bounded_calls = [s.name for g in [f] + P.closures_of(f) for s in g.calls() if 'Iterator' in s.name and s.name.split('::')[-1] in BOUNDING]
+    ctx.check(not bounded_ty and not bounded_calls, 'path-unbounded', 'Gate::path_iter hands out the complete walk of the chain (no hop limit, no filtering)', f.where(),
+              {'type': rty, 'adaptors': bounded_calls})
+    nx = [g for g in P.fn_list if g.key.startswith('<des::net::gate::') and g.key.endswith('as std::iter::Iterator>::next') and g.self_ty and any(x in rty for x in [strip_generics(g.self_ty)])]
+    if not nx and ('FromFn<' in rty or 'Successors<' in rty):
+        nx = [g for g in P.closures_of(f) if any(s.name.endswith('Connection::next_hop') for s in g.calls())][:1]   # `iter::from_fn(move || ..)`
+    if ctx.floor('walker behind Gate::path_iter', len(nx), 1):
+        g = nx[0]
+        ctx.touch(g)
+        hops = [s for s in g.calls() if s.name.endswith('Connection::next_hop')]
+        counters = [(b, i) for b in sorted(g.reachable()) for i, st in enumerate(g.stmts(b))
+                    if st['k'] == 'assign' and st['p']['pr'] and (classify_write(g, b, i, st) or ('',))[0] in ('inc', 'dec')]
+        ctx.check(bool(hops) and not counters, 'walker-follows-next-hop', "the walker advances by Connection::next_hop and keeps no hop counter", g.where(), {'next_hop_calls': len(hops), 'counters': len(counters)})
+
+
 def run(ctx):
+    r8_whole_chain(ctx)
     r1_cross_wiring(ctx)
     r2_next_hop(ctx)
     r3_entry_slot(ctx)
